@@ -9,7 +9,7 @@ VERIF = os.path.dirname(os.path.dirname(os.path.abspath(__file__)))
 LEVEL = {
     "C01": ("Codec.tla states what dumps()/parse must do for every type and value; TLC proves RoundTrip/Fidelity/SizeAgree/WindowOnly of the specification exhaustively over the bounded universe (MC_Codec) and judges thousands of recorded dump/re-parse executions of the real library, including constructed values and values with one number that does not fit, against Encode/Fits (Trace_Codec).",
             "bounded model checking of the TLA+ spec + trace validation of recorded executions; beyond the bounds assurance is testing against the spec as oracle. Float numeric interpretation is done by the projection (struct)."),
-    "C02": ("The data mask of every byte comes from the declarative layout (Enc returns bytes and masks); TLC proves Fidelity on the spec over the bounded universe and checks every recorded dumps() bit for bit against input AND mask.",
+    "C02": ("The data mask of every byte comes from the declarative layout (Enc returns bytes and masks); TLC proves Fidelity on the spec over the bounded universe, proves the structure writer's loop (MC_Writer: one step per field with the bit buffer's flush / pad / align decisions of the code) equal to Enc, and checks every recorded dumps() bit for bit against input AND mask.",
             "domain restricted to canonical encodings by spec flags (nan, nonmin); known finding F16 (union dump through one member) is recognised by the named deviation operator EncodeKnownDeviation and listed, not raised."),
     "C03": ("Both readers are bound to the single Decode of the specification and to each other: every scenario is run with compiled=True and False, TLC compares the observations (values, sizes of byte-occupying fields, consumed bytes, layout, outcome on short input) and checks __compiled__ = Compilable(d).",
             "trace validation against the spec; the generated source itself is not (yet) translated into the Plan model."),
